@@ -318,7 +318,7 @@ func c20Race(scen string, bound int) vh.Unit {
 		var followErr error
 		vh.RunDFS(u, vh.DFSSpec{
 			Name: name, Bound: bound,
-			Run:  vsched.Options{YieldFiles: []string{"agent.go"}, MaxTime: time.Hour, Delay: true},
+			Run: vsched.Options{YieldFiles: []string{"agent.go"}, MaxTime: time.Hour, Delay: true},
 			Body: func() {
 				body()
 				alive = c20Loops()
@@ -327,7 +327,7 @@ func c20Race(scen string, bound int) vh.Unit {
 				c20Settle()
 				aliveAfter = c20Loops()
 			},
-			Obs:  func(s *vsched.Sched) string { return fmt.Sprint(res, alive, len(w.sp.updates), w.sp.connects) },
+			Obs: func(s *vsched.Sched) string { return fmt.Sprint(res, alive, len(w.sp.updates), w.sp.connects) },
 			Check: func(s *vsched.Sched) (string, string) {
 				if overlap != "" {
 					return "lifecycle-race/start-accepted-while-running", fmt.Sprintf("%s: %s (results %v)", scen, overlap, res)
